@@ -6,6 +6,15 @@
 
 namespace Fastor {
 
+// The integer registers are vectors of `long long`, so reading or writing a 32-bit lane through a
+// plain int32_t* violates strict aliasing and is miscompiled by GCC at -O2 (operator[], minimum(),
+// maximum() ... returned garbage). All lane accesses below go through this may_alias type.
+#if defined(__GNUC__) || defined(__clang__)
+typedef int32_t __attribute__((__may_alias__)) int32_lane_t;
+#else
+typedef int32_t int32_lane_t;
+#endif
+
 
 // AVX512 VERSION
 //-----------------------------------------------------------------------------------------------
@@ -100,8 +109,8 @@ struct SIMDVector<int32_t,simd_abi::avx512> {
 #endif
     }
 
-    FASTOR_INLINE int32_t operator[](FASTOR_INDEX i) const {return reinterpret_cast<const int32_t*>(&value)[i];}
-    FASTOR_INLINE int32_t operator()(FASTOR_INDEX i) const {return reinterpret_cast<const int32_t*>(&value)[i];}
+    FASTOR_INLINE int32_t operator[](FASTOR_INDEX i) const {return reinterpret_cast<const int32_lane_t*>(&value)[i];}
+    FASTOR_INLINE int32_t operator()(FASTOR_INDEX i) const {return reinterpret_cast<const int32_lane_t*>(&value)[i];}
 
     FASTOR_INLINE void set(int32_t num) {
         value = _mm512_set1_epi32(num);
@@ -184,7 +193,7 @@ struct SIMDVector<int32_t,simd_abi::avx512> {
     }
 
     FASTOR_INLINE int32_t minimum() {
-        int32_t *vals = (int32_t*)&value;
+        int32_lane_t *vals = (int32_lane_t*)&value;
         int32_t quan = 0;
         for (FASTOR_INDEX i=0; i<Size; ++i)
             if (vals[i]<quan)
@@ -192,7 +201,7 @@ struct SIMDVector<int32_t,simd_abi::avx512> {
         return quan;
     }
     FASTOR_INLINE int32_t maximum() {
-        int32_t *vals = (int32_t*)&value;
+        int32_lane_t *vals = (int32_lane_t*)&value;
         int32_t quan = 0;
         for (FASTOR_INDEX i=0; i<Size; ++i)
             if (vals[i]>quan)
@@ -235,7 +244,7 @@ struct SIMDVector<int32_t,simd_abi::avx512> {
 };
 
 FASTOR_HINT_INLINE std::ostream& operator<<(std::ostream &os, SIMDVector<int32_t,simd_abi::avx512> a) {
-    const int32_t *value = (int32_t*) &a.value;
+    const int32_lane_t *value = (int32_lane_t*) &a.value;
     os << "["
        << value[0]  << " " << value[1]  << " "
        << value[2]  << " " << value[3]  << " "
@@ -353,7 +362,7 @@ FASTOR_INLINE SIMDVector<int32_t,simd_abi::avx512> abs(const SIMDVector<int32_t,
     out.value = _mm512_abs_epi32(a.value);
 #else
     for (FASTOR_INDEX i=0UL; i<16UL; ++i) {
-       ((int32_t*)&out.value)[i] = std::abs(((int32_t*)&a.value)[i]);
+       ((int32_lane_t*)&out.value)[i] = std::abs(((int32_lane_t*)&a.value)[i]);
     }
 #endif
     return out;
@@ -456,8 +465,8 @@ struct SIMDVector<int32_t,simd_abi::avx> {
 #endif
     }
 
-    FASTOR_INLINE int32_t operator[](FASTOR_INDEX i) const {return reinterpret_cast<const int32_t*>(&value)[i];}
-    FASTOR_INLINE int32_t operator()(FASTOR_INDEX i) const {return reinterpret_cast<const int32_t*>(&value)[i];}
+    FASTOR_INLINE int32_t operator[](FASTOR_INDEX i) const {return reinterpret_cast<const int32_lane_t*>(&value)[i];}
+    FASTOR_INLINE int32_t operator()(FASTOR_INDEX i) const {return reinterpret_cast<const int32_lane_t*>(&value)[i];}
 
     FASTOR_INLINE void set(int32_t num) {
         value = _mm256_set1_epi32(num);
@@ -526,7 +535,7 @@ struct SIMDVector<int32_t,simd_abi::avx> {
     }
 
     FASTOR_INLINE int32_t minimum() {
-        int32_t *vals = (int32_t*)&value;
+        int32_lane_t *vals = (int32_lane_t*)&value;
         int32_t quan = 0;
         for (FASTOR_INDEX i=0; i<Size; ++i)
             if (vals[i]<quan)
@@ -534,7 +543,7 @@ struct SIMDVector<int32_t,simd_abi::avx> {
         return quan;
     }
     FASTOR_INLINE int32_t maximum() {
-        int32_t *vals = (int32_t*)&value;
+        int32_lane_t *vals = (int32_lane_t*)&value;
         int32_t quan = 0;
         for (FASTOR_INDEX i=0; i<Size; ++i)
             if (vals[i]>quan)
@@ -568,7 +577,7 @@ struct SIMDVector<int32_t,simd_abi::avx> {
 };
 
 FASTOR_HINT_INLINE std::ostream& operator<<(std::ostream &os, SIMDVector<int32_t,simd_abi::avx> a) {
-    const int32_t *value = (int32_t*) &a.value;
+    const int32_lane_t *value = (int32_lane_t*) &a.value;
     os << "[" << value[0] <<  " " << value[1] << " " << value[2] << " " << value[3]
        << " " << value[4] <<  " " << value[5] << " " << value[6] << " " << value[7] << "]\n";
     return os;
@@ -672,7 +681,7 @@ FASTOR_INLINE SIMDVector<int32_t,simd_abi::avx> abs(const SIMDVector<int32_t,sim
     // out.value = _mm256_castsi128_si256(lo);
     // out.value = _mm256_insertf128_si256(out.value,hi,0x1);
 
-    int32_t *value = (int32_t*) &a.value;
+    int32_lane_t *value = (int32_lane_t*) &a.value;
     for (int32_t i=0; i<8; ++i) {
         value[i] = std::abs(value[i]);
     }
@@ -777,8 +786,8 @@ struct SIMDVector<int32_t,simd_abi::sse> {
 #endif
     }
 
-    FASTOR_INLINE int32_t operator[](FASTOR_INDEX i) const {return reinterpret_cast<const int32_t*>(&value)[i];}
-    FASTOR_INLINE int32_t operator()(FASTOR_INDEX i) const {return reinterpret_cast<const int32_t*>(&value)[i];}
+    FASTOR_INLINE int32_t operator[](FASTOR_INDEX i) const {return reinterpret_cast<const int32_lane_t*>(&value)[i];}
+    FASTOR_INLINE int32_t operator()(FASTOR_INDEX i) const {return reinterpret_cast<const int32_lane_t*>(&value)[i];}
 
     FASTOR_INLINE void set(int32_t num) {
         value = _mm_set1_epi32(num);
@@ -847,7 +856,7 @@ struct SIMDVector<int32_t,simd_abi::sse> {
     }
 
     FASTOR_INLINE int32_t minimum() {
-        int32_t *vals = (int32_t*)&value;
+        int32_lane_t *vals = (int32_lane_t*)&value;
         int32_t quan = 0;
         for (FASTOR_INDEX i=0; i<Size; ++i)
             if (vals[i]<quan)
@@ -855,7 +864,7 @@ struct SIMDVector<int32_t,simd_abi::sse> {
         return quan;
     }
     FASTOR_INLINE int32_t maximum() {
-        int32_t *vals = (int32_t*)&value;
+        int32_lane_t *vals = (int32_lane_t*)&value;
         int32_t quan = 0;
         for (FASTOR_INDEX i=0; i<Size; ++i)
             if (vals[i]>quan)
@@ -877,7 +886,7 @@ struct SIMDVector<int32_t,simd_abi::sse> {
 };
 
 FASTOR_HINT_INLINE std::ostream& operator<<(std::ostream &os, SIMDVector<int32_t,simd_abi::sse> a) {
-    const int32_t *value = (int32_t*) &a.value;
+    const int32_lane_t *value = (int32_lane_t*) &a.value;
     os << "[" << value[0] <<  " " << value[1] << " " << value[2] << " " << value[3] << "]\n";
     return os;
 }
